@@ -70,13 +70,19 @@ THEOREMS = [
     "generated_lexers_static",
     "generated_expressions_static",
     "lex_total",
+    "tokenize_lossless_input",
+    "lex_value_eq_raw",
 ]
+
+# theorems of lean/MontePyVerif/Props/C19Echo.lean (namespace MontePyVerif.C19Echo)
+THEOREMS_ECHO = ["format_eq_leaves", "echo_of_leaves", "splitOn_intercalate", "echo_lines"]
 
 
 def prove(chk):
     ok = leanio.prove(chk, "MontePyVerif.Props.C12Lexer", THEOREMS, "MontePyVerif.C12Lexer")
+    ok = leanio.prove(chk, "MontePyVerif.Props.C19Echo", THEOREMS_ECHO, "MontePyVerif.C19Echo") and ok
     if chk.thorough:
-        leanio.leanchecker(chk, ["MontePyVerif.Props.C12Lexer"])
+        leanio.leanchecker(chk, ["MontePyVerif.Props.C12Lexer", "MontePyVerif.Props.C19Echo"])
     chk.trusted_base = list(chk.trusted_base) + [
         "CPython's re._parser as the reader of the pattern syntax of tokens.py (tools/extractors/lexer_rules.py translates its "
         "parse tree, opcode by opcode, and raises on anything else)",
@@ -252,9 +258,9 @@ def build_cases(chk, card_texts):
         src[source] = src.get(source, 0) + 1
 
     for kind, text in card_texts:
-        add({"op": "tokenize", "cls": kind, "lines": text.split("\n")}, "generated-cards")
+        add({"op": "tokenize", "cls": kind, "lines": text.split("\n"), "wellformed": True}, "generated-cards")
     for kind, lines in repo_inputs(chk):
-        add({"op": "tokenize", "cls": kind, "lines": lines}, "repo-test-inputs")
+        add({"op": "tokenize", "cls": kind, "lines": lines, "wellformed": True}, "repo-test-inputs")
         add({"op": "lex", "cls": rng.choice(list(CLASSES)), "text": "\n".join(lines) + "\n"}, "repo-test-inputs-raw")
     for t in column_probes():
         add({"op": "tokenize", "cls": rng.choice(INPUT_CLASSES), "lines": t.split("\n")}, "column-probes")
@@ -341,6 +347,131 @@ def shrink(drv, item):
     return with_text(t)
 
 
+# ------------------------------------------------------------------------------------------------ Echo, measured
+def leaves_of(node, out):
+    """the source texts stored in a syntax tree, in format order (Props/C19Echo.lean: Tree.leaves)"""
+    from montepy.input_parser import syntax_node as sn
+
+    if node is None:
+        return
+    if isinstance(node, str):
+        out.append(node)
+    elif isinstance(node, sn.ValueNode):
+        if node._token is not None:
+            out.append(str(node._token))
+        leaves_of(node.padding, out)
+    elif isinstance(node, sn.PaddingNode):
+        for n in node.nodes:
+            leaves_of(n, out)
+    elif isinstance(node, sn.ParticleNode):
+        out.append(str(node._token))
+    elif isinstance(node, sn.ShortcutNode):
+        for n in node._original:
+            leaves_of(n, out)
+        leaves_of(node._end_pad, out)
+    elif isinstance(node, sn.IsotopesNode):
+        for pair in node.nodes:
+            for n in pair:
+                leaves_of(n, out)
+    elif isinstance(node, sn.ClassifierNode):
+        for n in (node.modifier, node.prefix, node.number, node.particles, node.padding):
+            leaves_of(n, out)
+    elif isinstance(node, (sn.SyntaxNode, sn.GeometryTree, sn.ParametersNode)):
+        for n in node.nodes.values():
+            leaves_of(n, out)
+    elif isinstance(node, (sn.ListNode, sn.CommentNode)):
+        for n in node.nodes:
+            leaves_of(n, out)
+    else:
+        raise TypeError(type(node).__name__)
+
+
+def echo_case(item):
+    """one well-formed input: the two measured hypotheses of Props/C19Echo.lean and Echo itself, on the real objects"""
+    mp = _mp()
+    lines = list(item["lines"])
+    build = {"cell": mp.cell_from, "surface": mp.surface_from, "data": mp.data_from}[item["cls"]]
+    res = {}
+    try:
+        toks = real_case(item)
+        if toks["out"] != "ok":
+            return {"skip": "lexer:" + toks["out"]}
+        try:
+            obj = build(lines)
+        except Exception as e:  # noqa: BLE001
+            return {"skip": "parse:" + type(e).__name__}
+        # the tree as the SLY parser built it (the object's constructor may add default nodes to its own copy:
+        # Cell._parse_keyword_modifiers): parse once more with the parser the object used, as MCNP_Object.__init__ does
+        from montepy.input_parser.block_type import BlockType
+        from montepy.input_parser.mcnp_input import Input
+
+        block = {"cell": BlockType.CELL, "surface": BlockType.SURFACE, "data": BlockType.DATA}[item["cls"]]
+        parser = getattr(obj, "_parser", None)
+        if parser is None:
+            return {"skip": "no-parser"}
+        inp = Input(lines, block)
+        try:
+            parser.restart()
+        except AttributeError:
+            pass
+        tree = parser.parse(inp.tokenize(), inp)
+        if tree is None:
+            return {"skip": "no-tree"}
+        try:
+            out = []
+            leaves_of(tree, out)
+        except TypeError as e:
+            return {"skip": "leaf-walk:" + str(e)}
+        text = "\n".join(lines)
+        spelled = "".join(out)
+        res["leaves_are_tokens"] = spelled == "".join(v for _, v in toks["toks"])
+        res["leaves_exact"] = [x for x in out if x] == [v for _, v in toks["toks"]]
+        res["format_is_concat"] = tree.format() == spelled
+        res["tree_echo"] = tree.format() == text
+        res["pre"] = "\t" not in text and bool(lines) and lines[-1] != "" and all("\n" not in l for l in lines)
+        import warnings
+
+        try:
+            with warnings.catch_warnings():
+                warnings.simplefilter("ignore")
+                res["echo"] = obj.format_for_mcnp_input((6, 2, 0)) == lines
+        except Exception as e:  # noqa: BLE001
+            res["echo"] = "raises:" + type(e).__name__
+    except Exception as e:  # noqa: BLE001
+        return {"skip": "harness:" + type(e).__name__}
+    return res
+
+
+def measure_echo(chk, cases):
+    """counters echo:* — how often LeavesAreTokens holds on the trees SLY builds; and the instance of the theorem
+    `C19Echo.echo_of_leaves` on every input (both hypotheses + preconditions => the tree formats to the text)"""
+    items = [c for c in cases if c["op"] == "tokenize" and c.get("wellformed")]
+    res = pmap(echo_case, items, chunksize=16)
+    n = {"inputs": len(items)}
+    samples = {}
+    for it, r in zip(items, res):
+        for key, bad in (("not_leaves_are_tokens", r.get("leaves_are_tokens") is False), ("format_rederives_text", r.get("format_is_concat") is False)):
+            if bad and len(samples.setdefault(key, [])) < 4:
+                samples[key].append({"cls": it["cls"], "lines": it["lines"]})
+        if "skip" in r:
+            chk.count("echo:skipped:" + r["skip"].split(":")[0])
+            continue
+        chk.count("echo:leaves_are_tokens" if r["leaves_are_tokens"] else "echo:not")
+        chk.count("echo:leaves_exact" if r["leaves_exact"] else "echo:leaves_finer_or_other")
+        chk.count("echo:format_is_concat" if r["format_is_concat"] else "echo:format_rederives_text")
+        chk.count("echo:tree_formats_to_text" if r["tree_echo"] else "echo:tree_formats_differently")
+        chk.count("echo:public_format_equals_lines" if r["echo"] is True else "echo:public_format_differs" if r["echo"] is False else "echo:public_format_needs_a_problem")
+        if r["leaves_are_tokens"] and r["format_is_concat"] and r["pre"]:
+            chk.count("echo:theorem_instance_checked")
+            if not r["tree_echo"]:
+                # C19Echo.echo_of_leaves says this cannot happen: the lexer model or the leaf walk is wrong
+                if echo_case(it) == r:
+                    chk.broken_obligation("correspondence", "U-echo (C19Echo.echo_of_leaves instance)", r, it)
+    n.update({k[5:]: v for k, v in sorted(chk.dist.items()) if k.startswith("echo:")})
+    n["samples_where_a_hypothesis_fails"] = samples
+    chk.units["U-echo"] = n
+
+
 # ------------------------------------------------------------------------------------------------ the unit
 def run_unit(chk, card_texts):
     prove(chk)
@@ -394,5 +525,6 @@ def run_unit(chk, card_texts):
         "outcomes_of_the_real_lexer": outcomes,
         "disagreements": len(bad),
     }
+    measure_echo(chk, cases)
     chk.extra["lexer_model"] = {"driver": "drv_lex", "cases": len(cases), "disagreements": len(bad)}
     return bad
